@@ -2727,3 +2727,57 @@ impl ChangeMarker for AnnotationStore {
         &self.changed
     }
 }
+
+#[cfg(feature = "verif-hooks")]
+impl AnnotationStore {
+    /// Verification hook: read-only, deterministic dump of the complete internal state of the store
+    /// (all item vectors with their tombstones, all id maps sorted by id, all reverse indices including
+    /// empty rows and stale handles). Left out on purpose: allocation capacities, the `changed` flags,
+    /// and the configuration (see `verif_dump_config`).
+    pub fn verif_dump(&self) -> String {
+        use crate::verif::section;
+        let mut out = String::new();
+        section(&mut out, "id", &self.id);
+        section(&mut out, "annotations", &self.annotations);
+        for (i, dataset) in self.annotationsets.iter().enumerate() {
+            match dataset {
+                Some(dataset) => dataset.verif_dump(&format!("annotationsets[{}]", i), &mut out),
+                None => section(&mut out, &format!("annotationsets[{}]", i), &"None"),
+            }
+        }
+        for (i, resource) in self.resources.iter().enumerate() {
+            match resource {
+                Some(resource) => resource.verif_dump(&format!("resources[{}]", i), &mut out),
+                None => section(&mut out, &format!("resources[{}]", i), &"None"),
+            }
+        }
+        section(&mut out, "annotation_idmap", &self.annotation_idmap.verif_sorted());
+        section(&mut out, "resource_idmap", &self.resource_idmap.verif_sorted());
+        section(&mut out, "dataset_idmap", &self.dataset_idmap.verif_sorted());
+        section(&mut out, "substore_idmap", &self.substore_idmap.verif_sorted());
+        section(&mut out, "dataset_data_annotation_map", &self.dataset_data_annotation_map);
+        section(&mut out, "textrelationmap", &self.textrelationmap);
+        section(&mut out, "resource_annotation_metamap", &self.resource_annotation_metamap);
+        section(&mut out, "dataset_annotation_metamap", &self.dataset_annotation_metamap);
+        section(&mut out, "annotation_annotation_map", &self.annotation_annotation_map);
+        section(&mut out, "key_annotation_map", &self.key_annotation_map);
+        section(&mut out, "key_annotation_metamap", &self.key_annotation_metamap);
+        section(&mut out, "data_annotation_metamap", &self.data_annotation_metamap);
+        section(&mut out, "annotation_substore_map", &self.annotation_substore_map);
+        section(&mut out, "resource_substore_map", &self.resource_substore_map);
+        section(&mut out, "dataset_substore_map", &self.dataset_substore_map);
+        section(&mut out, "substores", &self.substores);
+        out
+    }
+
+    /// Verification hook: the configuration and file association of the store (kept apart from `verif_dump`
+    /// because paths and the serialisation mode are not part of the annotation model)
+    pub fn verif_dump_config(&self) -> String {
+        use crate::verif::section;
+        let mut out = String::new();
+        section(&mut out, "config", &self.config);
+        section(&mut out, "filename", &self.filename);
+        section(&mut out, "changed", &self.changed());
+        out
+    }
+}
